@@ -46,6 +46,7 @@ def expand_nodes(G, attr):
 
 def make(rng):
     G, paths, ws, is_int = gen2.rand_flow_dag(rng, nmax=rng.choice([4, 5, 6]), npaths=(1, 4))
+    G.graph["id"] = "graph 1"
     node = rng.random() < 0.2
     info = {"node": node, "is_int": is_int}
     kw = {"flow_attr": "flow", "weight_type": int if is_int else float, "solver_options": {"threads": THREADS}}
@@ -55,7 +56,7 @@ def make(rng):
         for p, w in zip(paths, ws):
             for v in p:
                 val[v] += w
-        H = nx.DiGraph(); H.add_nodes_from(G.nodes()); H.add_edges_from(G.edges())
+        H = nx.DiGraph(); H.graph["id"] = "graph 1"; H.add_nodes_from(G.nodes()); H.add_edges_from(G.edges())
         for v in H.nodes():
             H.nodes[v]["flow"] = int(val[v]) if is_int else float(val[v])
         if rng.random() < 0.3 and H.number_of_nodes() > 2:
@@ -63,19 +64,34 @@ def make(rng):
         G = H
         kw["flow_attr_origin"] = "node"
     cons = []
-    if rng.random() < 0.3:
+    r = rng.random()
+    if r < 0.3:
         cons = gen2.rand_constraints(rng, paths, maxn=2)
-        if node:
-            cn = []
-            for c in cons:
-                ns = []
-                for (u, v) in c:
-                    if not ns or ns[-1] != u: ns.append(u)
-                    ns.append(v)
-                cn.append(ns)
-            cons = cn
-        if cons:
-            kw["subpath_constraints"] = cons
+    elif r < 0.45 and not node:
+        # constraints taken from ARBITRARY source-to-sink paths: several of them may be pairwise incompatible, so
+        # that the constrained minimum exceeds the unconstrained one (realised by additional paths)
+        allp = gen.all_st_paths(G)
+        cons = [c for c in gen2.rand_constraints(rng, [rng.choice(allp) for _ in range(4)], maxn=4) if c][:4]
+    elif r < 0.55 and not node:
+        # all (in-edge, out-edge) pairs through one inner node: pairwise incompatible two-edge constraints, whose
+        # number can exceed every bound that only looks at the graph (e.g. |E| - |V| + 2)
+        inner = [v for v in G if G.in_degree(v) >= 2 and G.out_degree(v) >= 2]
+        if inner:
+            c = rng.choice(inner)
+            pairs_ = [[(u, c), (c, w)] for u in G.predecessors(c) for w in G.successors(c)]
+            rng.shuffle(pairs_)
+            cons = pairs_[:4]
+    if cons and node:
+        cn = []
+        for c in cons:
+            ns = []
+            for (u, v) in c:
+                if not ns or ns[-1] != u: ns.append(u)
+                ns.append(v)
+            cn.append(ns)
+        cons = cn
+    if cons:
+        kw["subpath_constraints"] = cons
     ign = []
     if rng.random() < 0.3:
         elems = list(G.nodes()) if node else list(G.edges())
@@ -115,6 +131,27 @@ def oracle_min(info):
     return oracles.min_fd(H, "flow", is_int, ignore=ign, cons=cons, kmax=4)
 
 
+def corpus():
+    """hand-made instances that exercised past or seeded defects; run first on every run"""
+    out = []
+    def inst(edges, **kw):
+        G = nx.DiGraph(); G.graph["id"] = "graph 1"
+        for u, v, f in edges: G.add_edge(u, v, flow=f)
+        k = {"flow_attr": "flow", "weight_type": int, "solver_options": {"threads": THREADS}, "optimization_options": {}}
+        k.update(kw)
+        return {"node": False, "is_int": True, "G": G, "kwargs": k, "cons": k.get("subpath_constraints", []),
+                "ignore": k.get("elements_to_ignore", []), "paths": [], "weights": []}
+    bow = [("a1", "c", 2), ("a2", "c", 2), ("c", "b1", 2), ("c", "b2", 2)]
+    out.append(inst(bow, subpath_constraints=[[(a, "c"), ("c", b)] for a in ("a1", "a2") for b in ("b1", "b2")]))   # constrained minimum 4 > |E|-|V|+2
+    out.append(inst([("a", "b", 3)]))                                                   # minimum = |E| = 1
+    out.append(inst([("s", "a", 3), ("s", "b", 2), ("s", "c", 1)]))                     # star: minimum = |E|
+    out.append(inst([(f"v{i}", f"v{i+1}", i + 1) for i in range(9)], elements_to_ignore=[(f"v{i}", f"v{i+1}") for i in range(8)]))
+    out.append(inst([("a", "c", 5), ("b", "c", 3), ("c", "d", 5)], elements_to_ignore=[("b", "c")]))
+    out.append(inst([("v1", "v4", 4), ("v5", "v2", 4)], elements_to_ignore=[("v5", "v2")],
+                    optimization_options={"optimize_with_greedy": False, "use_min_gen_set_lowerbound": True}))
+    return out
+
+
 def run(ctx):
     import flowpaths as fp
     ctx.rule = ("random DAGs (<= 6 nodes) with positive conserving flows = superpositions of 1-4 weighted paths (int / dyadic float), "
@@ -122,9 +159,13 @@ def run(ctx):
                 "option vectors (greedy, safety, min-gen-set / subgraph-scanning lower bounds, guessed weights); "
                 "non-trivial = optimum >= 2 paths; distinct by graph+arguments")
     n = ctx.budget(420, 8000)
-    for i in range(n):
-        rng = ctx.rng("mfd", i)
-        info = make(rng)
+    fixed = corpus()
+    for i in range(-len(fixed), n):
+        if i < 0:
+            info = fixed[i + len(fixed)]
+        else:
+            rng = ctx.rng("mfd", i)
+            info = make(rng)
         rep = {"instance": describe(info)}
         try:
             m = fp.MinFlowDecomp(info["G"], **info["kwargs"])
